@@ -1604,6 +1604,67 @@ def mix_section(tier, seed):
 
 
 # ---------------------------------------------------------------------------------------------
+# depth, generically (C11): whatever the printers involved, the literals shown can only grow with the depth limit
+
+def depth_monotone_chunk(values):
+    import collections
+    fails = []
+    n = nt = 0
+    for value in values:
+        shown = []
+        ok = True
+        for d in (0, 1, 2, 3, 4, 5, 6, 8, None):
+            try:
+                with warnings.catch_warnings():
+                    warnings.simplefilter('ignore')
+                    text = pp.pformat(value, depth=d, width=100)
+                toks = py_tokens(text)
+            except Exception:
+                ok = False
+                break
+            lits = collections.Counter()
+            for t in toks:
+                if t[0] == 'l':
+                    lits[('l', t[1])] += 1
+                elif t[0] == 'c' and (t[1][:1].isdigit() or (t[1][:1] == '-' and t[1][1:2].isdigit())):
+                    lits[('n', t[1])] += 1
+            shown.append((d, lits, text))
+            n += 1
+        if not ok:
+            continue
+        nt += 1
+        for (d1, a, t1), (d2, b, t2) in zip(shown, shown[1:]):
+            if a - b:
+                if len(fails) < 3:
+                    fails.append({'kind': 'depth', 'why': 'literals shown with depth=%r are missing with the larger depth=%r: %s' % (d1, d2, sorted(map(str, (a - b).keys()))[:5]),
+                                  'value': repr(value)[:300], 'settings': {'depth': d1}, 'text': t1[:300], 'text_at_larger_depth': t2[:300]})
+                break
+    return n, nt, [], fails
+
+
+def depth_monotone_section(tier, seed):
+    rng = random.Random(seed * 83 + 37)
+    vals = [mix_value(rng) for _ in range(400 if tier == 'quick' else 5000)]
+    import collections
+    vals += [[100, collections.deque([101, [102, [103]]], maxlen=777)], collections.deque([1, [2, [3]]]), {'a': collections.OrderedDict([('b', [1, [2]])])},
+             [collections.defaultdict(list, {'k': [1, [2, (3, [4])]]})], collections.ChainMap({'a': [1, [2]]}, {'b': (3, [4])})]
+    chunks = [vals[i:i + 25] for i in range(0, len(vals), 25)]
+    tot = nt = 0
+    fails = []
+    with mp.Pool(min(NCPU, len(chunks))) as pool:
+        for n, t, mm, ff in pool.imap_unordered(depth_monotone_chunk, chunks):
+            tot += n
+            nt += t
+            fails.extend(ff)
+    stats = {'evaluations': tot, 'distinct_nontrivial': nt, 'values': len(vals), 'mismatches': 0,
+             'samples': [{'value': repr(vals[0])[:200]}],
+             'rule': 'values mixing built-ins, subclass instances, call objects and stdlib containers (bounded deques, OrderedDict, defaultdict, ChainMap, namespaces), '
+                     'each printed with depth = 0..6, 8, None: the multiset of string / bytes / number literals shown never loses an element when the limit grows '
+                     '("the output for d is the unlimited output with some sub-expressions replaced by placeholders"), whatever printers are involved'}
+    return stats, [], fails[:3]
+
+
+# ---------------------------------------------------------------------------------------------
 # the reader (Spec/Reader.lean) against CPython's own parser, on subclass instances and call-style objects (C08 / C17 / C01)
 
 def rval_of_ast(text):
